@@ -57,6 +57,7 @@ Proof.
   - rewrite E. apply (r_fst _ _ _ _ R).
   - unfold keys. rewrite E. apply (r_keys _ _ _ _ R).
   - intros e Ie. rewrite E in Ie. apply Dd. apply (r_dirs _ _ _ _ R e Ie).
+  - intros e Ie. rewrite E in Ie. apply (r_plain _ _ _ _ R e Ie).
 Qed.
 
 (* ---- crash states of a list of primitive steps: membership ---------------------------------------------------------- *)
@@ -124,28 +125,34 @@ Proof.
       * intros f T. right. unfold append_chunk at 1. simpl. rewrite T. simpl. unfold parse. simpl. rewrite last_rec_app. reflexivity.
 Qed.
 
-(* a crash state of appends on the file of the pair (e0, a0) answers as H or as H with the status added to that run *)
-Lemma appends_answers h H L e0 a0 p now g :
-  R2 h H L -> hist_okb H = true -> In (e0, a0) L -> p_req p = a_req a0 -> appended p g ->
+(* a crash state of appends on the file of the pair (e0, a0) is related to (hence answers as) H or H with the status added to that run *)
+Definition related (s' : sfs) (H : hist) : Prop := exists L, R2g false (dead s') (hdead H) L.
+Lemma related_answers s' H : related s' H -> hist_okb H = true -> answers_as s' H.
+Proof. intros [L R] O. apply (R2g_answers false s' H L); auto. Qed.
+Lemma related_pre h H L : R2 h H L -> related (sst h) H.
+Proof. intros R. exists L. apply R2g_weaken; auto. Qed.
+Lemma appends_related h H L e0 a0 p now g :
+  R2 h H L -> In (e0, a0) L -> p_req p = a_req a0 -> appended p g ->
   let H1 := {| h_runs := upd_run (a_id a0) (add_status p now) (h_runs H); h_cur := h_cur H; h_next := h_next H |} in
-  hist_okb H1 = true ->
   let s' := {| sdirs := sdirs (sst h); sfiles := upd_key (fst e0) g (sfiles (sst h)) |} in
-  answers_as s' H \/ answers_as s' H1.
+  related s' H \/ related s' H1.
 Proof.
-  intros R O I0 Pr AP H1 O1 s'.
+  intros R I0 Pr AP H1 s'.
   pose proof (R2g_weaken h H L R) as RW.
   pose proof (L_frun h H L R (e0, a0) I0) as FR. simpl in FR. destruct FR as [F1 [F2 [F3 [F4 [F5 [F6 F7]]]]]].
   destruct (AP (snd e0) (F5 eq_refl)) as [PA|PA].
-  - left. apply (R2g_answers false s' H (map (upd_pair (fst e0) g (fun a => a)) L)); auto.
+  - left. exists (map (upd_pair (fst e0) g (fun a => a)) L).
     apply (R2_update false (dead (sst h)) (hdead H) L (fst e0) (a_id a0) g (fun a => a) (dead s') (hdead H) e0 a0); auto.
     + unfold frun. simpl. rewrite PA. repeat split; auto; discriminate.
     + intros a. split; reflexivity.
     + simpl. unfold upd_run. rewrite <- (map_id (h_runs H)) at 1. apply map_ext. intros a. destruct (Nat.eqb (a_id a) (a_id a0)); reflexivity.
-  - right. apply (R2g_answers false s' H1 (map (upd_pair (fst e0) g (add_status p now)) L)); auto.
+  - right. exists (map (upd_pair (fst e0) g (add_status p now)) L).
     apply (R2_update false (dead (sst h)) (hdead H) L (fst e0) (a_id a0) g (add_status p now) (dead s') (hdead H1) e0 a0); auto.
     + unfold frun. simpl. rewrite PA, last_opt_snoc. repeat split; auto; try discriminate. apply Forall_app. split; auto.
     + apply pres_add.
 Qed.
+Lemma rel_answers s' H H1 : hist_okb H = true -> hist_okb H1 = true -> related s' H \/ related s' H1 -> answers_as s' H \/ answers_as s' H1.
+Proof. intros O O1 [X|X]; [left|right]; apply related_answers; auto. Qed.
 
 
 Lemma pre_answers h H L : R2 h H L -> hist_okb H = true -> answers_as (sst h) H.
@@ -158,41 +165,47 @@ Proof.
 Qed.
 
 (* ---- Write ------------------------------------------------------------------------------------------------------------- *)
-Theorem crash_write h H L tag size now s' :
-  R2 h H L -> hist_okb H = true -> hist_okb (sp_apply H (OWrite tag size now)) = true ->
+Lemma crash_write_rel h H L tag size now s' :
+  R2 h H L ->
   In s' (scrash_states kname kpath h (OWrite tag size now)) ->
-  answers_as s' H \/ answers_as s' (sp_apply H (OWrite tag size now)).
+  related s' H \/ related s' (sp_apply H (OWrite tag size now)).
 Proof.
-  intros R O O' IN. unfold scrash_states in IN. simpl sprims in IN. simpl sp_apply in *.
+  intros R IN. unfold scrash_states in IN. simpl sprims in IN. simpl sp_apply in *.
   pose proof (r_wr _ _ _ _ R) as W. unfold wr_ok in W.
   destruct (swr h) as [w|] eqn:EW, (h_cur H) as [id|] eqn:EC; try contradiction.
-  2:{ simpl in IN. destruct IN as [IN|[]]. subst s'. left. apply (pre_answers h H L); auto. }
+  2:{ simpl in IN. destruct IN as [IN|[]]. subst s'. left. apply (related_pre h H L); auto. }
   destruct W as [W1 [W2 [e0 [a0 [I0 [E1 [E2 E3]]]]]]]. rewrite W1 in IN.
   assert (GR : get_run id (h_runs H) = Some a0).
   { apply get_run_unique; auto. apply (r_ids _ _ _ _ R). apply (L_in_run h H L R (e0, a0)); auto. }
   rewrite GR in *. rewrite <- E3 in *.
   set (p := {| p_req := sw_req w; p_tag := tag; p_size := size |}) in *.
   apply crash_appends in IN. destruct IN as [g [Es AP]]. subst s'. rewrite <- E1. rewrite <- E2.
-  apply (appends_answers h H L e0 a0 p now g); auto. rewrite E2. exact O'.
+  apply (appends_related h H L e0 a0 p now g); auto.
 Qed.
+Theorem crash_write h H L tag size now s' :
+  R2 h H L -> hist_okb H = true -> hist_okb (sp_apply H (OWrite tag size now)) = true ->
+  In s' (scrash_states kname kpath h (OWrite tag size now)) ->
+  answers_as s' H \/ answers_as s' (sp_apply H (OWrite tag size now)).
+Proof. intros R O O' IN. apply rel_answers; auto. apply (crash_write_rel h H L); auto. Qed.
 
 (* ---- Update ------------------------------------------------------------------------------------------------------------ *)
-Theorem crash_update h H L d req tag size now s' :
-  R2 h H L -> hist_okb H = true -> hist_okb (sp_apply H (OUpdate d req tag size now)) = true ->
+Lemma crash_update_rel h H L d req tag size now s' :
+  R2 h H L -> hist_okb H = true ->
   In s' (scrash_states kname kpath h (OUpdate d req tag size now)) ->
-  answers_as s' H \/ answers_as s' (sp_apply H (OUpdate d req tag size now)).
+  related s' H \/ related s' (sp_apply H (OUpdate d req tag size now)).
 Proof.
-  intros R O O' IN. unfold scrash_states in IN. simpl sprims in IN. simpl sp_apply in *.
+  intros R O IN. unfold scrash_states in IN. cbn [sprims] in IN. simpl sp_apply in *.
   pose proof (find_refines_pair kname kpath true h H L d req R O) as F.
   destruct (sq_find kname kpath (sst h) d req) as [|k p0] eqn:Q.
-  { simpl in IN. destruct IN as [IN|[]]. subst s'. left. apply (pre_answers h H L); auto. }
+  { simpl in IN. destruct IN as [IN|[]]. subst s'. left. apply (related_pre h H L); auto. }
   destruct F as [Nr [e [a [I [E1 [E2 [E3 E4]]]]]]]. apply String.eqb_neq in Nr. rewrite Nr, E4 in *.
   set (p := {| p_req := req; p_tag := tag; p_size := size |}) in *.
   assert (Ie : In e (sfiles (sst h))) by (apply (L_in_file h H L R (e, a)); auto).
   assert (Dk : shas_dir (sst h) (k_dag k) = true). { rewrite <- E1. apply (r_dirs _ _ _ _ R); auto. }
   assert (Ik : In k (keys (sst h))). { rewrite <- E1. unfold keys. apply in_map. auto. }
-  change (SMkdir (k_dag k) :: SCreate k now :: map (fun c : chunk => SAppend k c now) (chunks_of p))
-    with ([SMkdir (k_dag k); SCreate k now] ++ map (fun c : chunk => SAppend k c now) (chunks_of p)) in IN.
+  assert (SO : sopen (sst h) k now = [SMkdir (k_dag k); SCreate k now]).
+  { apply (sopen_clean (sst h) k (snd e)). { rewrite <- E1. apply (L_sget h H L R e a I). } apply (L_frun h H L R (e, a) I). reflexivity. }
+  rewrite SO in IN. fold p in IN.
   apply scrash_app_in in IN. destruct IN as [IN|IN].
   - left. assert (s' = sst h).
     { assert (CL : scrash_from (sst h) [SMkdir (k_dag k); SCreate k now]
@@ -200,13 +213,72 @@ Proof.
         by reflexivity.
       rewrite CL, (mkdir_noop _ _ Dk), (create_noop _ k now Ik) in IN.
       destruct IN as [X|[X|[X|[]]]]; auto. }
-    subst s'. apply (pre_answers h H L); auto.
+    subst s'. apply (related_pre h H L); auto.
   - assert (RS : run_sprims (sst h) [SMkdir (k_dag k); SCreate k now] = sst h).
     { unfold run_sprims. cbn [fold_left]. rewrite (mkdir_noop _ _ Dk), (create_noop _ k now Ik). reflexivity. }
     rewrite RS in IN. apply crash_appends in IN. destruct IN as [g [Es AP]]. subst s'. rewrite <- E1.
     apply find_some in E4. destruct E4 as [Ia IR]. unfold is_run in IR.
     apply andb_prop in IR. destruct IR as [IR _]. apply andb_prop in IR. destruct IR as [_ IR]. apply String.eqb_eq in IR.
-    apply (appends_answers h H L e a p now g); auto.
+    apply (appends_related h H L e a p now g); auto.
+Qed.
+Theorem crash_update h H L d req tag size now s' :
+  R2 h H L -> hist_okb H = true -> hist_okb (sp_apply H (OUpdate d req tag size now)) = true ->
+  In s' (scrash_states kname kpath h (OUpdate d req tag size now)) ->
+  answers_as s' H \/ answers_as s' (sp_apply H (OUpdate d req tag size now)).
+Proof. intros R O O' IN. apply rel_answers; auto. apply (crash_update_rel h H L); auto. Qed.
+
+(* ---- F7c repaired (32b069b): a status update recorded by a NEW process after the kill --------------------------------------------
+   The crash states of Write / Update are RELATED to the run map before or after (torn tails and all); writer.open terminates a
+   torn last line, so the update becomes the last complete line of the file and the relation is kept (sim_update_g): the
+   acknowledged update is what every query answers afterwards. *)
+Lemma forallb_map' {A B} (g : A -> B) (P : B -> bool) l : forallb P (map g l) = forallb (fun a => P (g a)) l.
+Proof. induction l; simpl; auto. rewrite IHl. reflexivity. Qed.
+Lemma forallb_ext' {A} (P Q : A -> bool) l : (forall a, P a = Q a) -> forallb P l = forallb Q l.
+Proof. intros E. induction l; simpl; auto. rewrite E, IHl. reflexivity. Qed.
+Lemma hist_okb_upd_run id f H H' : (forall x, a_id (f x) = a_id x /\ a_dag (f x) = a_dag x /\ a_req (f x) = a_req x /\ a_stamp (f x) = a_stamp x) ->
+  h_runs H' = upd_run id f (h_runs H) -> hist_okb H' = hist_okb H.
+Proof.
+  intros Pf E. unfold hist_okb. rewrite E. unfold upd_run.
+  set (g := fun a : arun => if Nat.eqb (a_id a) id then f a else a).
+  assert (G : forall x, a_id (g x) = a_id x /\ a_dag (g x) = a_dag x /\ a_req (g x) = a_req x /\ a_stamp (g x) = a_stamp x).
+  { intros x. unfold g. destruct (Nat.eqb (a_id x) id); auto. }
+  rewrite forallb_map'. apply forallb_ext'. intros a. rewrite forallb_map'. apply forallb_ext'. intros b.
+  destruct (G a) as [A1 [A2 [A3 A4]]], (G b) as [B1 [B2 [B3 B4]]]. unfold clash. rewrite A1, A2, A3, A4, B1, B2, B3, B4. reflexivity.
+Qed.
+Lemma hist_okb_update H d req tag size now : hist_okb (sp_apply H (OUpdate d req tag size now)) = hist_okb H.
+Proof.
+  simpl. destruct (String.eqb req ""); auto. destruct (find (is_run d req) (h_runs H)) as [a|]; auto.
+  apply (hist_okb_upd_run (a_id a) (add_status {| p_req := req; p_tag := tag; p_size := size |} now)).
+  - intros x. repeat split; reflexivity.
+  - reflexivity.
+Qed.
+Lemma hdead_update H d req tag size now : sp_apply (hdead H) (OUpdate d req tag size now) = hdead (sp_apply H (OUpdate d req tag size now)).
+Proof. simpl. destruct (String.eqb req ""); auto. destruct (find (is_run d req) (h_runs H)); reflexivity. Qed.
+Lemma sapply_dead_update s d req tag size now :
+  sapply kname kpath (dead s) (OUpdate d req tag size now) = dead (sst (sapply kname kpath (dead s) (OUpdate d req tag size now))).
+Proof. unfold sapply. cbn [sst dead swr scch]. destruct (sq_find kname kpath s d req); reflexivity. Qed.
+Lemma related_update s H d req tag size now : related s H -> hist_okb H = true ->
+  related (sst (sapply kname kpath (dead s) (OUpdate d req tag size now))) (sp_apply H (OUpdate d req tag size now)).
+Proof.
+  intros [L R] O.
+  destruct (sim_update_g kname kpath false (dead s) (hdead H) L d req tag size now R O) as [L' R'].
+  exists L'. rewrite <- sapply_dead_update, <- hdead_update. exact R'.
+Qed.
+Theorem torn_then_update h H L o s' d req tag size now :
+  R2 h H L -> hist_okb H = true -> hist_okb (sp_apply H o) = true ->
+  match o with OWrite _ _ _ | OUpdate _ _ _ _ _ => True | _ => False end ->
+  In s' (scrash_states kname kpath h o) ->
+  let u := OUpdate d req tag size now in
+  let s2 := sst (sapply kname kpath (dead s') u) in
+  answers_as s2 (sp_apply H u) \/ answers_as s2 (sp_apply (sp_apply H o) u).
+Proof.
+  intros R O O' AO IN u s2.
+  assert (RL : related s' H \/ related s' (sp_apply H o)).
+  { destruct o; try contradiction.
+    - apply (crash_write_rel h H L); auto.
+    - apply (crash_update_rel h H L); auto. }
+  apply rel_answers; try (unfold u; rewrite hist_okb_update; auto).
+  destruct RL as [X|X]; [left|right]; apply related_update; auto.
 Qed.
 
 (* ---- Open / Touch: two or three states ------------------------------------------------------------------------------------ *)
@@ -216,12 +288,22 @@ Theorem crash_open h H L seen d stamp req now s' :
   In s' (scrash_states kname kpath h (OOpen d stamp req now)) ->
   answers_as s' H \/ answers_as s' (sp_apply H (OOpen d stamp req now)).
 Proof.
-  intros R O IS P O' IN. unfold scrash_states in IN. simpl sprims in IN. simpl scrash_from in IN.
+  intros R O IS P O' IN. unfold scrash_states in IN. cbn [sprims] in IN.
+  assert (Nk : ~ In (mkkey d stamp (trunc8 req) false) (keys (sst h))).
+  { simpl in P. apply andb_prop in P. destruct P as [P1 _]. apply negb_true_iff in P1. apply memk_false in P1. intro X. apply P1, IS, X. }
+  set (k := mkkey d stamp (trunc8 req) false) in *.
+  rewrite (sopen_fresh _ _ now Nk) in IN.
+  assert (CL : scrash_from (sst h) [SMkdir (k_dag k); SCreate k now]
+               = [sst h; run_sprim (sst h) (SMkdir d); run_sprim (run_sprim (sst h) (SMkdir d)) (SCreate k now)]) by reflexivity.
+  rewrite CL in IN.
   destruct IN as [X|[X|[X|[]]]]; subst s'.
   - left. apply (pre_answers h H L); auto.
   - left. apply (R2g_answers false _ H L); auto.
     apply (R2g_dirs false (sst h)). { apply R2g_weaken; auto. } { apply mkdir_files. } intros d0 Hd. apply mkdir_dir_mono; auto.
-  - right. apply (post_answers h H L seen (OOpen d stamp req now)); auto.
+  - right.
+    assert (PS : sst (sapply kname kpath h (OOpen d stamp req now)) = run_sprim (run_sprim (sst h) (SMkdir d)) (SCreate k now)).
+    { unfold sapply. cbn [sprims sst]. fold k. rewrite (sopen_fresh _ _ now Nk). reflexivity. }
+    rewrite <- PS. apply (post_answers h H L seen (OOpen d stamp req now)); auto.
 Qed.
 
 Theorem crash_touch h H L seen d stamp r8 c t s' :
@@ -243,9 +325,13 @@ Proof. destruct l as [|e r]; [congruence|]. intros _ A. simpl. rewrite (A e (or_
 
 Definition dagf (d : string) (e : sent) : bool := String.eqb (k_dag (fst e)) d.
 
-Lemma sglob_all_perm_raw s d : shas_dir s d = true -> Permutation (sglob kname s d PAll) (filter (dagf d) (sfiles s)).
+Lemma sglob_all_perm_raw s d : shas_dir s d = true -> (forall e, In e (sfiles s) -> k_tmp (fst e) = false) ->
+  Permutation (sglob kname s d PAll) (filter (dagf d) (sfiles s)).
 Proof.
-  intros Dd. unfold sglob. rewrite Dd. rewrite filter_true. apply isort_perm.
+  intros Dd Pl. unfold sglob. rewrite Dd.
+  rewrite (filter_ext_in' _ (fun _ => true)). { rewrite filter_true. apply isort_perm. }
+  intros e Ie. eapply Permutation_in in Ie; [|apply isort_perm]. apply filter_In in Ie. destruct Ie as [Ie _].
+  unfold in_patk. rewrite (Pl e Ie). reflexivity.
 Qed.
 
 (* the candidates of a lookup in a crash-free state: at most one *)
@@ -265,12 +351,12 @@ Proof.
 Qed.
 
 Lemma find_extra h H L kx fx e0 a0 pl d req :
-  R2 h H L -> hist_okb H = true -> ~ In kx (keys (sst h)) -> In (e0, a0) L -> k_dag kx = k_dag (fst e0) ->
+  R2 h H L -> hist_okb H = true -> ~ In kx (keys (sst h)) -> k_tmp kx = false -> In (e0, a0) L -> k_dag kx = k_dag (fst e0) ->
   parse (snd e0) = Some pl -> (parse fx = None \/ parse fx = Some pl) ->
   let s' := {| sdirs := sdirs (sst h); sfiles := sfiles (sst h) ++ [(kx, fx)] |} in
   fres_payload (sq_find kname kpath s' d req) = fres_payload (sq_find kname kpath (sst h) d req).
 Proof.
-  intros R O Nk I0 Dk P0 Px s'. unfold sq_find. rewrite !sfind_in_eq. destruct (String.eqb req ""); auto.
+  intros R O Nk Tk I0 Dk P0 Px s'. unfold sq_find. rewrite !sfind_in_eq. destruct (String.eqb req ""); auto.
   set (srt := fun l : list sent => rev (isort (fun x y : sent => String.ltb (kpath (fst x)) (kpath (fst y))) l)).
   assert (SP : forall l, Permutation (srt l) l).
   { intros l. unfold srt. eapply Permutation_trans; [apply Permutation_sym, Permutation_rev|]. apply isort_perm. }
@@ -283,11 +369,14 @@ Proof.
     assert (G2 : sglob kname (sst h) d PAll = []). { unfold sglob. rewrite Dd. reflexivity. }
     rewrite G1, G2. reflexivity. }
   assert (PM1 : Permutation (filter (reqP req) (srt (sglob kname (sst h) d PAll))) (filter (reqP req) (filter (dagf d) (sfiles (sst h))))).
-  { apply Permutation_filter. eapply Permutation_trans; [apply SP|]. apply sglob_all_perm_raw; auto. }
+  { apply Permutation_filter. eapply Permutation_trans; [apply SP|]. apply sglob_all_perm_raw; auto. apply (r_plain _ _ _ _ R). }
   assert (PM2 : Permutation (filter (reqP req) (srt (sglob kname s' d PAll)))
                             (filter (reqP req) (filter (dagf d) (sfiles (sst h))) ++ filter (reqP req) (filter (dagf d) [(kx, fx)]))).
   { rewrite <- filter_app, <- filter_app. apply Permutation_filter. eapply Permutation_trans; [apply SP|].
-    apply (sglob_all_perm_raw s' d). exact Dd. }
+    apply (sglob_all_perm_raw s' d). { exact Dd. }
+    intros e Ie. unfold s' in Ie. cbn [sfiles] in Ie. apply in_app_or in Ie. destruct Ie as [Ie|[Ie|[]]].
+    - apply (r_plain _ _ _ _ R); auto.
+    - subst e. exact Tk. }
   set (C := filter (reqP req) (filter (dagf d) (sfiles (sst h)))) in *.
   assert (CL : forall x y, In x C -> In y C -> x = y).
   { intros x y Ix Iy. unfold C in Ix, Iy. apply filter_In in Ix, Iy. destruct Ix as [Ix Px'], Iy as [Iy Py'].
@@ -326,69 +415,170 @@ Proof.
     + intros e Ie. eapply Permutation_in in Ie; [|exact PM2]. destruct Ie as [Ie|[Ie|[]]]; subst e; simpl; auto.
 Qed.
 
-(* a file that holds no parseable status is invisible to latest / recent (since 3aa388e the readers skip it) *)
-Lemma load_pure_extra s kx fx k : ~ In kx (keys s) ->
-  load_pure {| sdirs := sdirs s; sfiles := sfiles s ++ [(kx, fx)] |} k = if skey_eqb kx k then parse fx else load_pure s k.
-Proof.
-  intros N. unfold load_pure. rewrite !sget_lget. cbn [sfiles]. rewrite lget_app. rewrite <- sget_lget.
-  destruct (skey_eqb kx k) eqn:E.
-  - apply skey_eqb_eq in E. subst k. rewrite (proj2 (sget_none s kx) N). unfold lget. simpl. rewrite skey_eqb_refl. reflexivity.
-  - destruct (sget s k); auto. unfold lget. simpl. rewrite (skey_eqb_sym k kx), E. reflexivity.
-Qed.
+(* ---- what the queries see of a store: its directories and its plain files (no pattern matches a temporary copy) ---------------- *)
+Definition plainb (e : sent) : bool := negb (k_tmp (fst e)).
+Definition same_view (s s' : sfs) : Prop :=
+  (forall d, shas_dir s' d = shas_dir s d) /\ filter plainb (sfiles s') = filter plainb (sfiles s).
 
-Lemma invisible_loads s kx fx d pk : ~ In kx (keys s) -> parse fx = None ->
-  let s' := {| sdirs := sdirs s; sfiles := sfiles s ++ [(kx, fx)] |} in
-  loads s' (sort_desc sts_of (sglob kname s' d pk)) = loads s (sort_desc sts_of (sglob kname s d pk)).
+Lemma sglob_plain_eq s d pk :
+  sglob kname s d pk = if shas_dir s d
+                       then filter (fun e : sent => in_patk pk (fst e))
+                                   (isort (klt (fun e : sent => kname (fst e))) (filter (dagf d) (filter plainb (sfiles s))))
+                       else [].
 Proof.
-  intros N Pf s'. set (NX := fun e : sent => negb (skey_eqb kx (fst e))).
-  assert (LC : forall st e l, loads st (e :: l) = opt_list (load_pure st (fst e)) ++ loads st l) by reflexivity.
-  assert (L1 : forall l, loads s' l = loads s (filter NX l)).
-  { induction l as [|e l IH]; [reflexivity|]. rewrite LC. cbn [filter]. unfold s' at 1. rewrite load_pure_extra by auto. unfold NX at 1.
-    destruct (skey_eqb kx (fst e)); cbn [negb]; rewrite IH; [rewrite Pf; reflexivity | rewrite LC; reflexivity]. }
-  rewrite L1, sort_desc_filter. f_equal. f_equal.
-  set (PK := fun e : sent => in_patk pk (fst e)). set (DG := fun e : sent => String.eqb (k_dag (fst e)) d).
-  assert (GE : forall st, sglob kname st d pk = if shas_dir st d then filter PK (isort (klt (fun e : sent => kname (fst e))) (filter DG (sfiles st))) else [])
-    by reflexivity.
-  rewrite (GE s'), (GE s). change (shas_dir s' d) with (shas_dir s d). destruct (shas_dir s d); auto.
-  rewrite filter_filter. rewrite (filter_ext (fun x : sent => PK x && NX x) (fun x : sent => NX x && PK x)) by (intros x; apply andb_comm).
-  rewrite <- filter_filter. f_equal.
-  rewrite isort_filter. f_equal.
-  unfold s'. cbn [sfiles]. rewrite filter_filter, filter_app.
-  assert (X1 : filter (fun x : sent => DG x && NX x) [(kx, fx)] = []).
-  { simpl. unfold NX. simpl. rewrite skey_eqb_refl, andb_false_r. reflexivity. }
-  rewrite X1, app_nil_r.
-  apply filter_ext_in'. intros e Ie. unfold NX.
-  assert (X : skey_eqb kx (fst e) = false). { apply skey_eqb_neq. intro X. apply N. rewrite X. unfold keys. apply in_map. auto. }
-  rewrite X. apply andb_true_r.
+  unfold sglob. destruct (shas_dir s d); auto.
+  set (PK := fun e : sent => in_patk pk (fst e)).
+  set (KL := klt (fun e : sent => kname (fst e))).
+  change (filter PK (isort KL (filter (dagf d) (sfiles s))) = filter PK (isort KL (filter (dagf d) (filter plainb (sfiles s))))).
+  assert (E1 : forall l, filter PK l = filter PK (filter plainb l)).
+  { intros l. rewrite filter_filter. apply filter_ext. intros e. unfold PK, plainb, in_patk. destruct (negb (k_tmp (fst e))); reflexivity. }
+  rewrite (E1 (isort KL (filter (dagf d) (sfiles s)))). f_equal. unfold KL. rewrite isort_filter. f_equal.
+  rewrite !filter_filter. apply filter_ext. intros e. apply andb_comm.
 Qed.
-
-Lemma invisible_answers s kx fx H : ~ In kx (keys s) -> parse fx = None -> shas_dir s (k_dag kx) = true ->
-  (forall d req, fres_payload (sq_find kname kpath {| sdirs := sdirs s; sfiles := sfiles s ++ [(kx, fx)] |} d req) = sp_find H d req) ->
-  answers_as s H -> answers_as {| sdirs := sdirs s; sfiles := sfiles s ++ [(kx, fx)] |} H.
+Lemma sglob_view s s' d pk : same_view s s' -> sglob kname s' d pk = sglob kname s d pk.
+Proof. intros [V1 V2]. rewrite !sglob_plain_eq, V1, V2. reflexivity. Qed.
+Lemma sglob_iff s d pk e : In e (sglob kname s d pk) <->
+  shas_dir s d = true /\ In e (sfiles s) /\ k_dag (fst e) = d /\ in_patk pk (fst e) = true.
 Proof.
-  intros N Pf Dd FQ A d. destruct (A d) as [A1 [A2 A3]]. split; [|split].
-  - intros req. apply FQ.
-  - intros day. rewrite <- A2. unfold sq_latest, slatest_of.
-    pose proof (invisible_loads s kx fx d (PLatest day) N Pf) as IL. simpl in IL.
-    set (s' := {| sdirs := sdirs s; sfiles := sfiles s ++ [(kx, fx)] |}) in *.
-    assert (E1 : forall st l, snd (match l with [] => ([], LNoData) | _ :: _ => sload_first [] st (sfilter_latest l (List.length l)) end)
-                 = match loads st (sort_desc sts_of l) with [] => LNoData | p :: _ => LOk p end).
-    { intros st l. destruct l as [|e0 l0]; [reflexivity|]. rewrite sfilter_latest_all.
-      apply (sload_first_sound st (sort_desc sts_of (e0 :: l0)) [] (cache_sound_nil st)). }
-    rewrite (E1 s'), (E1 s), IL. reflexivity.
-  - intros n. rewrite <- A3. unfold sq_recent, srecent_of.
-    pose proof (invisible_loads s kx fx d PAll N Pf) as IL. simpl in IL.
-    set (s' := {| sdirs := sdirs s; sfiles := sfiles s ++ [(kx, fx)] |}) in *.
-    assert (E1 : forall st l, snd (match l with [] => ([], []) | _ :: _ => sload_upto [] st (sfilter_latest l (List.length l)) n end)
-                 = firstn n (loads st (sort_desc sts_of l))).
-    { intros st l. destruct l as [|e0 l0]; [simpl; rewrite firstn_nil; reflexivity|]. rewrite sfilter_latest_all.
-      apply (sload_upto_sound st (sort_desc sts_of (e0 :: l0)) n [] (cache_sound_nil st)). }
-    rewrite (E1 s'), (E1 s), IL. reflexivity.
+  unfold sglob. destruct (shas_dir s d).
+  - rewrite filter_In. split.
+    + intros [I P]. eapply Permutation_in in I; [|apply isort_perm]. apply filter_In in I. destruct I as [I E]. apply String.eqb_eq in E. auto.
+    + intros [_ [I [E P]]]. split; auto. eapply Permutation_in; [apply Permutation_sym, isort_perm|]. apply filter_In. split; auto.
+      apply String.eqb_eq; auto.
+  - split; [intros []|intros [X _]; discriminate].
 Qed.
+Lemma sglob_plain_keys s d pk e : In e (sglob kname s d pk) -> k_tmp (fst e) = false.
+Proof. intros I. apply sglob_iff in I. destruct I as [_ [_ [_ P]]]. unfold in_patk in P. apply andb_prop in P. destruct P as [P _]. apply negb_true_iff in P. exact P. Qed.
 
-(* the window that remains (F7b): the compacted twin PARSES (its status line is complete) and the original is not yet unlinked *)
-Definition twin_window (h : sstate) (s' : sfs) : Prop :=
-  exists w fx, swr h = Some w /\ sdirs s' = sdirs (sst h) /\ sfiles s' = sfiles (sst h) ++ [(twin (sw_key w), fx)] /\ parse fx <> None.
+Lemma sget_plain s k : k_tmp k = false -> sget s k = lget (filter plainb (sfiles s)) k.
+Proof.
+  intros T. unfold sget, lget. rewrite filter_filter.
+  rewrite (filter_ext (fun x : sent => plainb x && skey_eqb k (fst x)) (fun x : sent => skey_eqb k (fst x))); auto.
+  intros x. destruct (skey_eqb k (fst x)) eqn:E; [|apply andb_false_r]. apply skey_eqb_eq in E. unfold plainb. rewrite <- E, T. reflexivity.
+Qed.
+Lemma sload_latest_view c s s' k : same_view s s' -> k_tmp k = false -> sload_latest c s' k = sload_latest c s k.
+Proof. intros [_ V] T. unfold sload_latest. rewrite !(sget_plain _ k T), V. reflexivity. Qed.
+Lemma sload_first_view s s' l : same_view s s' -> (forall e, In e l -> k_tmp (fst e) = false) -> forall c, sload_first c s' l = sload_first c s l.
+Proof.
+  intros V. induction l as [|e l IH]; intros P c; simpl; auto.
+  rewrite (sload_latest_view c s s' (fst e) V) by (apply P; simpl; auto).
+  destruct (sload_latest c s (fst e)) as [c' [p|]]; auto. apply IH. intros; apply P; simpl; auto.
+Qed.
+Lemma sload_upto_view s s' l : same_view s s' -> (forall e, In e l -> k_tmp (fst e) = false) -> forall n c, sload_upto c s' l n = sload_upto c s l n.
+Proof.
+  intros V. induction l as [|e l IH]; intros P n c; simpl; auto. destruct n as [|n']; auto.
+  rewrite (sload_latest_view c s s' (fst e) V) by (apply P; simpl; auto).
+  destruct (sload_latest c s (fst e)) as [c' [p|]].
+  - rewrite IH by (intros; apply P; simpl; auto). reflexivity.
+  - apply IH. intros; apply P; simpl; auto.
+Qed.
+Lemma sfilter_latest_sub l n e : In e (sfilter_latest l n) -> In e l.
+Proof.
+  rewrite sfilter_latest_eq. intros I. apply firstn_incl in I. eapply Permutation_in in I; [|apply sort_desc_perm].
+  unfold sdrop_compacted in I. apply filter_In in I. apply I.
+Qed.
+(* a store with the same directories and the same plain files answers the same *)
+Lemma view_answers s s' H : same_view s s' -> answers_as s H -> answers_as s' H.
+Proof.
+  intros V A d. destruct (A d) as [A1 [A2 A3]]. split; [|split].
+  - intros req. rewrite <- A1. unfold sq_find. rewrite (sglob_view s s' d PAll V). reflexivity.
+  - intros day. rewrite <- A2. unfold sq_latest, slatest_of. rewrite (sglob_view s s' d (PLatest day) V).
+    destruct (sglob kname s d (PLatest day)) as [|e0 l0] eqn:G; auto.
+    rewrite (sload_first_view s s'); auto. intros e Ie. apply sfilter_latest_sub in Ie. rewrite <- G in Ie. eapply sglob_plain_keys; eauto.
+  - intros n. rewrite <- A3. unfold sq_recent, srecent_of. rewrite (sglob_view s s' d PAll V).
+    destruct (sglob kname s d PAll) as [|e0 l0] eqn:G; auto.
+    rewrite (sload_upto_view s s'); auto. intros e Ie. apply sfilter_latest_sub in Ie. rewrite <- G in Ie. eapply sglob_plain_keys; eauto.
+Qed.
+Lemma same_view_tmp s kx fx : k_tmp kx = true -> same_view s {| sdirs := sdirs s; sfiles := sfiles s ++ [(kx, fx)] |}.
+Proof. intros T. split; [reflexivity|]. cbn [sfiles]. rewrite filter_app. simpl. unfold plainb at 2. simpl. rewrite T. simpl. apply app_nil_r. Qed.
+
+(* ---- the published copy next to the original: dropCompacted makes the store answer as after the unlink ----------------------- *)
+Definition nk (k : skey) (e : sent) : bool := negb (skey_eqb k (fst e)).
+Lemma existsb_filter_irr {A} (f P : A -> bool) l : (forall m, In m l -> P m = false -> f m = false) -> existsb f (filter P l) = existsb f l.
+Proof.
+  induction l as [|m l IH]; simpl; intros Hm; auto. destruct (P m) eqn:E; simpl.
+  - rewrite IH; auto.
+  - rewrite (Hm m (or_introl eq_refl) E). simpl. apply IH. auto.
+Qed.
+Lemma sdrop_unlink l k : k_c k = false -> (In k (map fst l) -> In (twin k) (map fst l)) ->
+  sdrop_compacted (filter (nk k) l) = sdrop_compacted l /\ ~ In k (map fst (sdrop_compacted l)).
+Proof.
+  intros C Tw.
+  assert (S1 : forall e, sdropped (filter (nk k) l) e = sdropped l e).
+  { intros e. unfold sdropped. f_equal. apply existsb_filter_irr. intros m _ Pm. unfold nk in Pm. apply negb_false_iff in Pm.
+    apply skey_eqb_eq in Pm. rewrite <- Pm. apply skey_eqb_neq. intro X. rewrite <- X in C. simpl in C. discriminate. }
+  assert (S2 : ~ In k (map fst (sdrop_compacted l))).
+  { intro I. apply in_map_iff in I. destruct I as [e [E I]]. unfold sdrop_compacted in I. apply filter_In in I. destruct I as [I D].
+    apply negb_true_iff in D. unfold sdropped in D. rewrite E, C in D. simpl in D.
+    match type of D with ?a = false => assert (X : a = true) end.
+    { assert (T : In (twin k) (map fst l)) by (apply Tw; rewrite <- E; apply in_map; auto).
+      apply in_map_iff in T. destruct T as [m [Em Im]]. apply existsb_exists. exists m. split; auto. rewrite Em. apply skey_eqb_refl. }
+    rewrite X in D. discriminate. }
+  split; auto.
+  unfold sdrop_compacted at 1. rewrite (filter_ext _ (fun e => negb (sdropped l e))) by (intros e; rewrite S1; reflexivity).
+  rewrite filter_filter. rewrite (filter_ext (fun x : sent => nk k x && negb (sdropped l x)) (fun x : sent => negb (sdropped l x) && nk k x)) by (intros x; apply andb_comm).
+  rewrite <- filter_filter. fold (sdrop_compacted l).
+  transitivity (filter (fun _ : sent => true) (sdrop_compacted l)); [|apply filter_true].
+  apply filter_ext_in. intros e Ie. unfold nk. apply negb_true_iff. apply skey_eqb_neq. intro X. apply S2. rewrite X. apply in_map. auto.
+Qed.
+Lemma slatest_of_eq c st l : slatest_of c st l = sload_first c st (sort_desc sts_of (sdrop_compacted l)).
+Proof. unfold slatest_of. destruct l as [|e l]; [reflexivity|]. rewrite sfilter_latest_all. reflexivity. Qed.
+Lemma srecent_of_eq c st l n : srecent_of c st l n = sload_upto c st (sort_desc sts_of (sdrop_compacted l)) n.
+Proof. unfold srecent_of. destruct l as [|e l]; [reflexivity|]. rewrite sfilter_latest_all. reflexivity. Qed.
+Lemma filter_comm {A} (p q : A -> bool) l : filter p (filter q l) = filter q (filter p l).
+Proof. rewrite !filter_filter. apply filter_ext. intros x. apply andb_comm. Qed.
+Lemma sglob_unlink s k d pk : sglob kname (run_sprim s (SUnlink k)) d pk = filter (nk k) (sglob kname s d pk).
+Proof.
+  unfold sglob. cbn [run_sprim sdirs sfiles]. unfold shas_dir. cbn [sdirs].
+  destruct (existsb (String.eqb d) (sdirs s)); auto.
+  set (PK := fun e : sent => in_patk pk (fst e)).
+  set (KL := klt (fun e : sent => kname (fst e))).
+  change (filter PK (isort KL (filter (dagf d) (filter (nk k) (sfiles s)))) = filter (nk k) (filter PK (isort KL (filter (dagf d) (sfiles s))))).
+  rewrite (filter_comm (nk k) PK). f_equal. unfold KL. rewrite isort_filter. f_equal. apply filter_comm.
+Qed.
+Lemma sload_latest_unlink c s k k' : k' <> k -> sload_latest c (run_sprim s (SUnlink k)) k' = sload_latest c s k'.
+Proof.
+  intros N. unfold sload_latest. rewrite !sget_lget. cbn [run_sprim sfiles]. rewrite lget_filter_ne.
+  apply skey_eqb_neq in N. rewrite N. reflexivity.
+Qed.
+Lemma sload_first_unlink s k l : ~ In k (map fst l) -> forall c, sload_first c (run_sprim s (SUnlink k)) l = sload_first c s l.
+Proof.
+  induction l as [|e l IH]; intros N c; [reflexivity|]. cbn [sload_first].
+  rewrite sload_latest_unlink by (intro X; apply N; simpl; auto).
+  destruct (sload_latest c s (fst e)) as [c' [p|]]; auto. apply IH. intro X. apply N. simpl. auto.
+Qed.
+Lemma sload_upto_unlink s k l : ~ In k (map fst l) -> forall n c, sload_upto c (run_sprim s (SUnlink k)) l n = sload_upto c s l n.
+Proof.
+  induction l as [|e l IH]; intros N n c; [reflexivity|]. cbn [sload_upto]. destruct n as [|n']; auto.
+  rewrite sload_latest_unlink by (intro X; apply N; simpl; auto).
+  destruct (sload_latest c s (fst e)) as [c' [p|]].
+  - rewrite IH by (intro X; apply N; simpl; auto). reflexivity.
+  - apply IH. intro X. apply N. simpl. auto.
+Qed.
+(* the store in which the plain file k and its compacted twin both exist answers latest / recent as the store without k *)
+Lemma published_view s k : k_c k = false -> k_tmp k = false -> In (twin k) (keys s) ->
+  forall c d, (forall day, sq_latest kname c s d day = sq_latest kname c (run_sprim s (SUnlink k)) d day)
+           /\ (forall n, sq_recent kname c s d n = sq_recent kname c (run_sprim s (SUnlink k)) d n).
+Proof.
+  intros C T Tw c d.
+  assert (G : forall pk, sdrop_compacted (sglob kname (run_sprim s (SUnlink k)) d pk) = sdrop_compacted (sglob kname s d pk)
+                         /\ ~ In k (map fst (sort_desc sts_of (sdrop_compacted (sglob kname s d pk))))).
+  { intros pk. rewrite sglob_unlink.
+    destruct (sdrop_unlink (sglob kname s d pk) k C) as [S1 S2].
+    - intros I. apply in_map_iff in I. destruct I as [e [E I]]. apply sglob_iff in I. destruct I as [Dd [If [Ed Pk]]].
+      unfold keys in Tw. apply in_map_iff in Tw. destruct Tw as [m [Em Im]].
+      apply in_map_iff. exists m. split; auto. apply sglob_iff. repeat split; auto.
+      + rewrite Em. simpl. rewrite <- E. exact Ed.
+      + rewrite Em. rewrite <- E in *. unfold in_patk in *.
+        change (k_tmp (twin (fst e))) with false. change (k_stamp (twin (fst e))) with (k_stamp (fst e)). rewrite T in Pk. exact Pk.
+    - split; auto. intro I. apply S2. apply in_map_iff in I. destruct I as [e [E I]]. eapply Permutation_in in I; [|apply sort_desc_perm].
+      apply in_map_iff. exists e. auto. }
+  split.
+  - intros day. unfold sq_latest. rewrite !slatest_of_eq. destruct (G (PLatest day)) as [G1 G2]. rewrite G1.
+    symmetry. apply sload_first_unlink; auto.
+  - intros n. unfold sq_recent. rewrite !srecent_of_eq. destruct (G PAll) as [G1 G2]. rewrite G1.
+    symmetry. apply sload_upto_unlink; auto.
+Qed.
 
 Lemma close_find_same H now d req : sp_find (sp_apply H (OClose now)) d req = sp_find H d req.
 Proof.
@@ -404,74 +594,82 @@ Proof.
   fold g. rewrite F. destruct (find (is_run d req) (h_runs H)); simpl; auto.
 Qed.
 
+(* Close is atomic under a kill (since eb925d1): the copy is invisible until the rename publishes it; from then on the original is
+   dropped by the readers, i.e. the store already answers as after the unlink *)
 Theorem crash_close h H L seen now s' :
   R2 h H L -> hist_okb H = true -> incl (keys (sst h)) seen -> op_okb h seen (OClose now) = true ->
   hist_okb (sp_apply H (OClose now)) = true ->
   In s' (scrash_states kname kpath h (OClose now)) ->
-  (forall d req, fres_payload (sq_find kname kpath s' d req) = sp_find H d req)
-  /\ (twin_window h s' \/ answers_as s' H \/ answers_as s' (sp_apply H (OClose now))).
+  answers_as s' H \/ answers_as s' (sp_apply H (OClose now)).
 Proof.
   intros R O IS P O' IN.
-  assert (PRE : (forall d req, fres_payload (sq_find kname kpath (sst h) d req) = sp_find H d req) /\ answers_as (sst h) H).
-  { pose proof (pre_answers h H L R O) as A. split; auto. intros d req. apply A. }
+  assert (PRE : answers_as (sst h) H) by (apply (pre_answers h H L R O)).
   assert (POST : answers_as (sst (sapply kname kpath h (OClose now))) (sp_apply H (OClose now)))
     by (apply (post_answers h H L seen (OClose now)); auto).
   unfold scrash_states in IN. simpl sprims in IN.
   pose proof (r_wr _ _ _ _ R) as W. unfold wr_ok in W. simpl in P.
   destruct (swr h) as [w|] eqn:EW.
-  2:{ simpl in IN. destruct IN as [IN|[]]. subst s'. split; [apply PRE|]. right. left. apply PRE. }
+  2:{ simpl in IN. destruct IN as [IN|[]]. subst s'. left. exact PRE. }
   destruct (h_cur H) as [id|] eqn:EC; [|contradiction].
   destruct W as [W1 [W2 [e0 [a0 [I0 [E1 [E2 E3]]]]]]].
   pose proof (L_sget h H L R e0 a0 I0) as G0. rewrite E1 in G0. rewrite G0 in IN.
   destruct (parse (snd e0)) as [pl|] eqn:Pp.
-  2:{ simpl in IN. destruct IN as [IN|[]]. subst s'. split; [apply PRE|]. right. left. apply PRE. }
-  set (k := sw_key w) in *. set (kc := twin k) in *.
-  apply negb_true_iff in P. apply memk_false in P.
+  2:{ simpl in IN. destruct IN as [IN|[]]. subst s'. left. exact PRE. }
+  set (k := sw_key w) in *. set (kc := twin k) in *. set (kt := tmpk kc) in *.
+  apply andb_prop in P. destruct P as [P _]. apply negb_true_iff in P. apply memk_false in P.
   assert (Nkc : ~ In kc (keys (sst h))) by (intro X; apply P, IS, X).
+  assert (Nkt : ~ In kt (keys (sst h))) by (apply tmpk_absent, (r_plain _ _ _ _ R)).
+  assert (Tk : k_tmp k = false). { rewrite <- E1. apply (r_plain _ _ _ _ R). apply (L_in_file h H L R (e0, a0)); auto. }
   assert (Dk : shas_dir (sst h) (k_dag kc) = true).
   { change (k_dag kc) with (k_dag k). rewrite <- E1. apply (r_dirs _ _ _ _ R). apply (L_in_file h H L R (e0, a0)); auto. }
-  set (sc := {| sdirs := sdirs (sst h); sfiles := sfiles (sst h) ++ [(kc, empty_file now)] |}).
-  assert (WIN : forall fx, (parse fx = None \/ parse fx = Some pl) ->
-            let x := {| sdirs := sdirs (sst h); sfiles := sfiles (sst h) ++ [(kc, fx)] |} in
-            (forall d req, fres_payload (sq_find kname kpath x d req) = sp_find H d req) /\ (twin_window h x \/ answers_as x H)).
-  { intros fx Pf x.
-    assert (FQ : forall d req, fres_payload (sq_find kname kpath x d req) = sp_find H d req).
-    { intros d req. unfold x. rewrite (find_extra h H L kc fx e0 a0 pl d req); auto. { apply PRE. } rewrite E1. reflexivity. }
-    split; auto. destruct (parse fx) as [pf|] eqn:Ef.
-    - left. exists w, fx. rewrite EW. repeat split; auto. rewrite Ef. discriminate.
-    - right. apply invisible_answers; auto. apply PRE. }
-  change (SMkdir (k_dag k) :: SCreate kc now :: map (fun c : chunk => SAppend kc c now) (chunks_of pl) ++ [SUnlink k])
-    with ([SMkdir (k_dag kc); SCreate kc now] ++ (map (fun c : chunk => SAppend kc c now) (chunks_of pl) ++ [SUnlink k])) in IN.
+  (* every state before the rename: the store plus (at most) the temporary copy *)
+  assert (TMP : forall fx, answers_as {| sdirs := sdirs (sst h); sfiles := sfiles (sst h) ++ [(kt, fx)] |} H).
+  { intros fx. apply (view_answers (sst h)); auto. apply same_view_tmp. reflexivity. }
+  change (SUnlink kt :: SMkdir (k_dag k) :: SCreate kt now :: map (fun c : chunk => SAppend kt c now) (chunks_of pl) ++ [SRename kt kc; SUnlink k])
+    with ([SUnlink kt; SMkdir (k_dag kc); SCreate kt now] ++ (map (fun c : chunk => SAppend kt c now) (chunks_of pl) ++ [SRename kt kc; SUnlink k])) in IN.
   apply scrash_app_in in IN. destruct IN as [IN|IN].
-  - assert (CL : scrash_from (sst h) [SMkdir (k_dag kc); SCreate kc now]
-                 = [sst h; run_sprim (sst h) (SMkdir (k_dag kc)); run_sprim (run_sprim (sst h) (SMkdir (k_dag kc))) (SCreate kc now)])
+  - assert (CL : scrash_from (sst h) [SUnlink kt; SMkdir (k_dag kc); SCreate kt now]
+                 = [sst h; run_sprim (sst h) (SUnlink kt); run_sprim (run_sprim (sst h) (SUnlink kt)) (SMkdir (k_dag kc));
+                    run_sprim (run_sprim (run_sprim (sst h) (SUnlink kt)) (SMkdir (k_dag kc))) (SCreate kt now)])
       by reflexivity.
-    rewrite CL, (mkdir_noop _ _ Dk), (create_fresh _ kc now Nkc) in IN.
-    destruct IN as [X|[X|[X|[]]]]; subst s'.
-    + split; [apply PRE|]. right. left. apply PRE.
-    + split; [apply PRE|]. right. left. apply PRE.
-    + destruct (WIN (empty_file now)) as [A [B|B]]; auto.
-  - assert (RS : run_sprims (sst h) [SMkdir (k_dag kc); SCreate kc now] = sc).
-    { unfold run_sprims. cbn [fold_left]. rewrite (mkdir_noop _ _ Dk), (create_fresh _ kc now Nkc). reflexivity. }
-    rewrite RS in IN.
-    assert (UK : forall g, upd_key kc g (sfiles sc) = sfiles (sst h) ++ [(kc, g (empty_file now))]).
-    { intros g. unfold sc. cbn [sfiles]. rewrite upd_key_app, (upd_key_absent kc g (sfiles (sst h))) by exact Nkc. rewrite upd_key_single. reflexivity. }
+    rewrite CL, (unlink_absent _ _ Nkt), (mkdir_noop _ _ Dk), (create_fresh _ kt now Nkt) in IN.
+    destruct IN as [X|[X|[X|[X|[]]]]]; subst s'; left; auto.
+  - assert (RS : run_sprims (sst h) [SUnlink kt; SMkdir (k_dag kc); SCreate kt now]
+                 = {| sdirs := sdirs (sst h); sfiles := sfiles (sst h) ++ [(kt, empty_file now)] |}).
+    { unfold run_sprims. cbn [fold_left]. rewrite (unlink_absent _ _ Nkt), (mkdir_noop _ _ Dk), (create_fresh _ kt now Nkt). reflexivity. }
+    rewrite RS in IN. set (sc := {| sdirs := sdirs (sst h); sfiles := sfiles (sst h) ++ [(kt, empty_file now)] |}) in *.
+    assert (UK : forall g, upd_key kt g (sfiles sc) = sfiles (sst h) ++ [(kt, g (empty_file now))]).
+    { intros g. unfold sc. cbn [sfiles]. rewrite upd_key_app, (upd_key_absent kt g (sfiles (sst h))) by exact Nkt. rewrite upd_key_single. reflexivity. }
     apply scrash_app_in in IN. destruct IN as [IN|IN].
-    + apply crash_appends in IN. destruct IN as [g [Es AP]]. subst s'. rewrite UK. cbn [sdirs sc].
-      destruct (AP (empty_file now) eq_refl) as [PA|PA]; destruct (WIN (g (empty_file now))) as [A [B|B]]; auto.
+    + apply crash_appends in IN. destruct IN as [g [Es AP]]. subst s'. rewrite UK. cbn [sdirs sc]. left. apply TMP.
     + rewrite run_appends in IN. rewrite UK in IN. rewrite appends_status in IN by reflexivity. cbn [sdirs sc items empty_file app] in IN.
-      set (sfull := {| sdirs := sdirs (sst h); sfiles := sfiles (sst h) ++ [(kc, {| items := [Rec pl]; ftail := TNone; mtime := now |})] |}) in *.
-      assert (CL : scrash_from sfull [SUnlink k] = [sfull; run_sprim sfull (SUnlink k)]) by reflexivity.
-      rewrite CL in IN. destruct IN as [X|[X|[]]]; subst s'.
-      * destruct (WIN {| items := [Rec pl]; ftail := TNone; mtime := now |}) as [A [B|B]]; auto.
-      * assert (PS : sst (sapply kname kpath h (OClose now)) = run_sprim sfull (SUnlink k)).
-        { unfold sapply. cbn [sprims sst]. rewrite EW. cbn [sst]. fold k. rewrite G0, Pp. fold kc.
-          change ([SMkdir (k_dag kc); SCreate kc now] ++ map (fun c : chunk => SAppend kc c now) (chunks_of pl) ++ [SUnlink k])
-            with ([SMkdir (k_dag kc); SCreate kc now] ++ (map (fun c : chunk => SAppend kc c now) (chunks_of pl) ++ [SUnlink k])).
-          rewrite !run_sprims_app, RS, run_appends, UK. rewrite appends_status by reflexivity. reflexivity. }
-        rewrite <- PS. split.
-        -- intros d req. rewrite <- (close_find_same H now d req). apply POST.
-        -- right. right. exact POST.
+      set (fc := {| items := [Rec pl]; ftail := TNone; mtime := now |}) in *.
+      set (stmp := {| sdirs := sdirs (sst h); sfiles := sfiles (sst h) ++ [(kt, fc)] |}) in *.
+      set (sfull := {| sdirs := sdirs (sst h); sfiles := sfiles (sst h) ++ [(kc, fc)] |}).
+      assert (RN : run_sprim stmp (SRename kt kc) = sfull).
+      { unfold stmp, sfull. apply rename_last; auto. apply tmpk_neq. reflexivity. }
+      assert (CL : scrash_from stmp [SRename kt kc; SUnlink k] = [stmp; run_sprim stmp (SRename kt kc); run_sprim (run_sprim stmp (SRename kt kc)) (SUnlink k)])
+        by reflexivity.
+      rewrite CL, RN in IN.
+      assert (PS : sst (sapply kname kpath h (OClose now)) = run_sprim sfull (SUnlink k)).
+      { unfold sapply. cbn [sprims sst]. rewrite EW. cbn [sst]. fold k. rewrite G0, Pp. fold kc. fold kt.
+        match goal with |- context [run_sprims (sst h) ?ps] =>
+          change (run_sprims (sst h) ps) with
+            (run_sprims (sst h) ([SUnlink (tmpk (twin k)); SMkdir (k_dag (twin k)); SCreate (tmpk (twin k)) now]
+                ++ map (fun c => SAppend (tmpk (twin k)) c now) (chunks_of pl) ++ [SRename (tmpk (twin k)) (twin k); SUnlink k])) end.
+        rewrite (close_run (sst h) k pl now Nkc Nkt Dk). reflexivity. }
+      destruct IN as [X|[X|[X|[]]]]; subst s'.
+      * left. apply TMP.
+      * right. rewrite PS in POST. intros d. destruct (POST d) as [A1 [A2 A3]].
+        assert (Ikc : In (twin k) (keys sfull)).
+        { unfold keys, sfull. cbn [sfiles]. rewrite map_app. apply in_or_app. right. simpl. auto. }
+        destruct (published_view sfull k W2 Tk Ikc [] d) as [V1 V2].
+        split; [|split].
+        -- intros req. rewrite (close_find_same H now d req). unfold sfull.
+           rewrite (find_extra h H L kc fc e0 a0 pl d req); auto. { apply PRE. } rewrite E1. reflexivity.
+        -- intros day. rewrite V1. apply A2.
+        -- intros n. rewrite V2. apply A3.
+      * right. rewrite <- PS. exact POST.
 Qed.
 
 
@@ -504,6 +702,7 @@ Proof.
   - apply NoDup_map_filter. apply (r_ids _ _ _ _ R).
   - intros b Ib. apply filter_In in Ib. destruct Ib as [Ib _]. apply (r_idlt _ _ _ _ R b Ib).
   - intros x Ix. apply filter_In in Ix. destruct Ix as [Ix _]. apply (r_dirs _ _ _ _ R x Ix).
+  - intros x Ix. apply filter_In in Ix. destruct Ix as [Ix _]. apply (r_plain _ _ _ _ R x Ix).
 Qed.
 
 Lemma hist_ok_sub H H' : hist_ok H -> (forall a, In a (h_runs H') -> In a (h_runs H)) -> hist_ok H'.
@@ -638,6 +837,8 @@ Proof.
     destruct (skey_eqb k (fst e0)); subst y; simpl.
     + exact Dd.
     + apply (r_dirs _ _ _ _ R e0 I0).
+  - intros y Iy. apply in_map_iff in Iy. destruct Iy as [e0 [E I0]]. pose proof (r_plain _ _ _ _ R e0 I0) as Tp.
+    destruct (skey_eqb k (fst e0)) eqn:Ek; subst y; simpl; auto. apply skey_eqb_eq in Ek. rewrite Ek. exact Tp.
 Qed.
 
 Definition mrel (d d' : string) (x x' : sent * arun) : Prop := x' = x \/ (k_dag (fst (fst x)) = d /\ x' = mvd d' x).
